@@ -22,7 +22,18 @@
 #include "myth_context.h"
 #undef MYTH_CTX_CALLBACK
 #define MYTH_CTX_CALLBACK static inline __attribute__((always_inline))
+#if VERIF_RICH
+/* fresh contexts: the real myth_make_context_* (stack-pointer arithmetic, verified in C03) are renamed away and modelled */
+#define myth_make_context_empty real_myth_make_context_empty
+#define myth_make_context_voidcall real_myth_make_context_voidcall
+#endif
 #include "myth_context_func.h"
+#if VERIF_RICH
+#undef myth_make_context_empty
+#undef myth_make_context_voidcall
+static inline void myth_make_context_empty(myth_context_t ctx, void *stack, size_t stacksize);
+static inline void myth_make_context_voidcall(myth_context_t ctx, void_func_t func, void *stack, size_t stacksize);
+#endif
 #undef myth_swap_context_withcall
 #undef myth_swap_context
 #undef myth_set_context
@@ -43,7 +54,15 @@ long nondet_long(void);
 extern volatile int verif_ctx_saved[4];   /* context of logical thread k is completely saved        */
 extern volatile int verif_wake[4];        /* 0 not runnable; 1 in a run queue; 2 worker handed over  */
 extern volatile int verif_started[4];
-extern volatile int verif_nrun[4];          /* how many times thread k has been made runnable / handed a worker */     /* spawned child may start                                 */
+extern volatile int verif_nrun[4];
+extern volatile int verif_go[4];          /* rich model: thread k may (re)start: it is queued (stealable) or was handed a worker */
+extern volatile int verif_rq[4];          /* rich model: worker index whose run queue holds thread k */
+extern volatile int verif_env_of[4];      /* rich model: worker index thread k currently runs on, -1 if none */
+extern volatile int verif_env_busy[4];
+extern volatile int verif_handoff_env[4];
+extern volatile int verif_entry_kind[4];  /* 1: fresh child-first context, 2: fresh parent-first context */
+extern volatile int verif_on_own_stack[4];/* thread k currently executes on its own stack (cleared while a switch callback runs) */
+extern void *verif_spawn_a1[4], *verif_spawn_a2[4], *verif_spawn_a3[4];          /* how many times thread k has been made runnable / handed a worker */     /* spawned child may start                                 */
 
 static inline int verif_tid_of_ctx(myth_context_t c);
 static inline int verif_tid_of_th(void *th);
@@ -69,30 +88,38 @@ static inline struct myth_thread* myth_queue_peek(myth_thread_queue_t q){ (void)
 static inline void verif_switch_to(myth_context_t to, int me);
 static inline void verif_after_resume(int me);
 static inline int verif_is_create_cb(void *fn);
-static inline void verif_spawn(myth_context_t to, void *a1, void *a2, void *a3);
+static inline void verif_spawn(myth_context_t to, int me, void *a1, void *a2, void *a3);
+#if VERIF_RICH
+#define VERIF_PARK_FLAG(k) (&verif_go[k])
+#else
+#define VERIF_PARK_FLAG(k) (&verif_wake[k])
+#endif
 
 #define myth_swap_context_withcall(from,to,fn,a1,a2,a3) do { \
     int me_ = verif_tid_of_ctx(from); \
     verif_check(!verif_ctx_saved[me_], "model: a context is saved only while its thread runs"); \
     verif_ctx_saved[me_] = 1; \
+    verif_on_own_stack[me_] = 0; \
     if (verif_is_create_cb((void*)(fn))) { \
-      verif_spawn((to), (void*)(a1), (void*)(a2), (void*)(a3)); \
+      verif_spawn((to), me_, (void*)(a1), (void*)(a2), (void*)(a3)); \
     } else { \
       fn((void*)(a1),(void*)(a2),(void*)(a3)); \
       verif_switch_to((to), me_); \
     } \
-    verif_park(&verif_wake[me_]); \
+    verif_park(VERIF_PARK_FLAG(me_)); \
     verif_after_resume(me_); \
   } while (0)
 #define myth_swap_context(from,to) do { \
     int me_ = verif_tid_of_ctx(from); \
     verif_ctx_saved[me_] = 1; \
+    verif_on_own_stack[me_] = 0; \
     verif_switch_to((to), me_); \
-    verif_park(&verif_wake[me_]); \
+    verif_park(VERIF_PARK_FLAG(me_)); \
     verif_after_resume(me_); \
   } while (0)
 #define myth_set_context(to) do { verif_switch_to((to), verif_cur_tid()); verif_stop(); } while (0)
 #define myth_set_context_withcall(to,fn,a1,a2,a3) do { \
+    verif_on_own_stack[verif_cur_tid()] = 0; \
     fn((void*)(a1),(void*)(a2),(void*)(a3)); \
     verif_switch_to((to), verif_cur_tid()); \
     verif_stop(); \
